@@ -32,6 +32,7 @@ type gor struct {
 	done   bool
 	ready  func() bool // nil: runnable; otherwise blocked until it returns true
 	what   string
+	vc     vclock
 }
 
 type killSignal struct{}
@@ -52,12 +53,15 @@ type schedState struct {
 	wgs      map[*Value]int
 	onces    map[*Value]bool // Once currently running its function
 	Switches int
+	race     raceState
 }
 
 func (m *Machine) resetSched() {
 	main := &gor{id: 0, resume: make(chan struct{}), exited: make(chan struct{})}
+	main.vc[0] = 1
 	m.sch = schedState{gors: []*gor{main}, cur: main, bound: 2,
-		locks: map[*Value]*lockState{}, wgs: map[*Value]int{}, onces: map[*Value]bool{}}
+		locks: map[*Value]*lockState{}, wgs: map[*Value]int{}, onces: map[*Value]bool{},
+		race: raceState{sync: map[interface{}]*vclock{}, shadow: map[interface{}]*shadowCell{}}}
 }
 
 func (m *Machine) concurrent() bool { return len(m.sch.gors) > 1 }
@@ -67,9 +71,13 @@ func (m *Machine) spawn(fn Value, args []Value) {
 	s := &m.sch
 	g := &gor{id: len(s.gors), resume: make(chan struct{}), exited: make(chan struct{})}
 	s.gors = append(s.gors, g)
-	if len(s.gors) > 16 {
+	if len(s.gors) > maxGors {
 		m.abort("budget", "more than 16 goroutines")
 	}
+	// the go statement orders everything the parent did before it ahead of the child
+	g.vc = s.cur.vc
+	g.vc[g.id] = 1
+	s.cur.vc[s.cur.id]++
 	go func() {
 		defer close(g.exited)
 		<-g.resume
@@ -283,6 +291,7 @@ func init() {
 		}
 		m.block(func() bool { return !l.writer }, "sync.Mutex.Lock")
 		l.writer = true
+		m.hbAcquire(l)
 		return nil
 	})
 	reg("(*sync.Mutex).TryLock", func(m *Machine, fn *ssa.Function, args []Value) Value {
@@ -299,6 +308,7 @@ func init() {
 		if !l.writer {
 			panic(targetPanic{msg: "fatal error: sync: unlock of unlocked mutex", stack: m.stackString()})
 		}
+		m.hbRelease(l)
 		l.writer = false
 		m.yield()
 		return nil
@@ -315,6 +325,7 @@ func init() {
 		}
 		m.block(func() bool { return !l.writer && l.readers == 0 }, "sync.RWMutex.Lock")
 		l.writer = true
+		m.hbAcquire(l)
 		return nil
 	})
 	reg("(*sync.RWMutex).Unlock", func(m *Machine, fn *ssa.Function, args []Value) Value {
@@ -322,6 +333,7 @@ func init() {
 		if !l.writer {
 			panic(targetPanic{msg: "fatal error: sync: Unlock of unlocked RWMutex", stack: m.stackString()})
 		}
+		m.hbRelease(l)
 		l.writer = false
 		m.yield()
 		return nil
@@ -338,6 +350,7 @@ func init() {
 		}
 		m.block(func() bool { return !l.writer }, "sync.RWMutex.RLock")
 		l.readers++
+		m.hbAcquire(l)
 		return nil
 	})
 	reg("(*sync.RWMutex).RUnlock", func(m *Machine, fn *ssa.Function, args []Value) Value {
@@ -345,6 +358,7 @@ func init() {
 		if l.readers == 0 {
 			panic(targetPanic{msg: "fatal error: sync: RUnlock of unlocked RWMutex", stack: m.stackString()})
 		}
+		m.hbRelease(l)
 		l.readers--
 		m.yield()
 		return nil
@@ -363,6 +377,7 @@ func init() {
 			panic(targetPanic{msg: "sync: negative WaitGroup counter", stack: m.stackString()})
 		}
 		m.sch.wgs[c] = n
+		m.hbRelease(c)
 		m.yield()
 		return nil
 	})
@@ -372,6 +387,7 @@ func init() {
 		if n < 0 {
 			panic(targetPanic{msg: "sync: negative WaitGroup counter", stack: m.stackString()})
 		}
+		m.hbRelease(c)
 		m.sch.wgs[c] = n
 		m.yield()
 		return nil
@@ -386,6 +402,7 @@ func init() {
 			return nil
 		}
 		m.block(func() bool { return m.sch.wgs[c] == 0 }, "sync.WaitGroup.Wait")
+		m.hbAcquire(c)
 		return nil
 	})
 	reg("runtime.Caller", func(m *Machine, fn *ssa.Function, args []Value) Value {
@@ -426,6 +443,7 @@ func (m *Machine) chanSend(ch *Chan, v Value) {
 	if ch.Closed {
 		panic(targetPanic{msg: "send on closed channel", stack: m.stackString()})
 	}
+	m.hbRelease(ch)
 	ch.Buf = append(ch.Buf, v)
 	ch.Sent++
 	if ch.Cap == 0 {
@@ -443,6 +461,7 @@ func (m *Machine) chanRecv(ch *Chan) (Value, bool) {
 	ch.Waiting++
 	m.block(func() bool { return len(ch.Buf) > 0 || ch.Closed }, "channel receive")
 	ch.Waiting--
+	m.hbAcquire(ch)
 	if len(ch.Buf) > 0 {
 		v := ch.Buf[0]
 		ch.Buf = ch.Buf[1:]
@@ -460,6 +479,7 @@ func (m *Machine) chanClose(ch *Chan) {
 		panic(targetPanic{msg: "close of closed channel", stack: m.stackString()})
 	}
 	m.yield()
+	m.hbRelease(ch)
 	ch.Closed = true
 }
 
